@@ -451,70 +451,9 @@ def run(ctx) -> None:
             ctx.sample({"thread": T, "site": f"{fn}:{line}", "kind": kind[0]})
     ctx.count("blocking_sites", nsites)
 
-    # ---------------------------------------------------------------- monitor discipline (every untimed wait in the package)
-    nwait = 0
-    for m in P.modules.values():
-        if not thorough and m.name in LINUX_SKIP:
-            continue
-        for cname, ci in m.classes.items():
-            waits = []
-            cpaths = {}
-            has_cond = any(lock_kind(P, cname, a) in ("Condition", "Condition(RLock)") for a in {dotted(t).split(".")[1] for mf in ci.methods.values() for n in ast.walk(mf.node) if isinstance(n, ast.Assign) for t in n.targets if dotted(t) and dotted(t).startswith("self.") and dotted(t).count(".") == 1})
-            if not has_cond:
-                continue
-            cfg = ThreadCfg(P, follow_attrs=False, no_inline=USER_CODE | {"join", "start"})
-            cfg.freeze_locals = True
-            for mname, mf in ci.methods.items():
-                try:
-                    cpaths[mname] = Enumerator(cfg).run(mf, selfcls=cname)
-                except AnalysisError:
-                    continue
+    from ..monitor import monitor_discipline
 
-            def find(ps, stack, mname):
-                for p in ps:
-                    for e in p.evs:
-                        if e.kind == "wait" and not e.extra.get("timed"):
-                            waits.append((mname, e, list(stack)))
-                        if e.kind == "loop":
-                            find(e.extra["paths"], stack + [e], mname)
-
-            for mname, ps in cpaths.items():
-                find(ps, [], mname)
-            seenw = set()
-            pred_fields: set[str] = set()
-            for mname, w, stack in waits:
-                if id(w.node) in seenw:
-                    continue
-                seenw.add(id(w.node))
-                nwait += 1
-                inner = [L for L in stack if L.extra.get("kind") == "while" and L.text != "True"]
-                fields = set(re.findall(r"self\.(_\w+)", inner[-1].raw)) if inner else set()
-                if inner:
-                    # predicate helpers such as should_keep_running(): add what they read
-                    for hm in re.findall(r"self\.(\w+)\(\)", inner[-1].raw):
-                        hf = P.find_method(cname, hm)
-                        if hf is not None:
-                            fields |= set(re.findall(r"self\.(_\w+)", ast.unparse(hf.node)))
-                pred_fields |= fields
-                ctx.check(bool(fields), RM, f"{cname}.{mname}: wait in predicate loop", "untimed wait() is not the body of a loop whose condition reads shared state: a notify (stop, new item) that happens before the wait is lost and the thread sleeps forever", f"{m.relpath}:{w.line}", {"loop": inner[-1].raw if inner else None})
-            if not pred_fields:
-                continue
-            for mname, ps in cpaths.items():
-                notif = False
-                writes: set[str] = set()
-                for p in ps:
-                    for e in p.flat():
-                        if e.kind == "notify":
-                            notif = True
-                        if e.kind == "store" and e.extra.get("recv") == "self":
-                            writes.add(e.extra.get("attr"))
-                        if e.kind == "call":
-                            mm = re.fullmatch(r"self\.(_\w+)\.(append|appendleft|extend|insert|set|add|put)", e.extra.get("func", ""))
-                            if mm:
-                                writes.add(mm.group(1))
-                if notif:
-                    ctx.check(bool(writes & pred_fields), RM, f"{cname}.{mname}: notifier writes the predicate", f"notifies after writing {sorted(writes)} but the wait predicate reads {sorted(pred_fields)}: the woken thread re-checks an unchanged predicate and waits again", ci.methods[mname].loc)
-    ctx.count("untimed_waits", nwait)
+    monitor_discipline(ctx, RM, skip_modules=LINUX_SKIP)
 
     # ---------------------------------------------------------------- callback lock re-entrant
     k = lock_kind(P, "BaseObserver", "_lock")
